@@ -13,6 +13,14 @@ RULE = ("q <hex>: html_quote on NUL-free byte strings (all strings <=4 over a 16
 TRUSTED = ["modelled, not verified: the C loop of html_quote is modelled as table lookup + concatenation; "
            "the table itself is dumped from the running code every run"]
 ASSUMPTIONS = ["inputs are C strings (no NUL)"]
+MANIFEST = {
+    "text": "full: theorems quote_no_raw_meta, unquote_quote, quote_injective, quote_fits_buffer hold for every byte string in the model "
+            "(escape-table lookup + concatenation); the 256-entry table is regenerated from the running html_quote every run and its "
+            "shape facts are re-decided by the kernel; the real function is run under ASan/UBSan against the model and a direct oracle",
+    "note": "trusted: Lean kernel (+propext/Classical.choice/Quot.sound as printed), table dump program, C++ harness and python oracle; "
+            "modelled not verified: the copying loop of html_quote (covered by the differential run under ASan only)",
+    "technique": "Lean 4 proof (induction + decide over regenerated table) + table translator + ASan differential run",
+}
 
 
 def build_exe(stage):
